@@ -8,6 +8,35 @@ global size_of usize == 8;
 //@ include units/tetris_track/track.inc.rs
 
 //@ include units/tetris_export/export.inc.rs
+//@ include units/tetris_track/index.inc.rs
+// ---- Placer::convert_track_layer (layout21tetris/src/placer.rs): closest track on another same-direction layer ----
+/// R5: the placer reduced to the validated stack
+pub struct Placer { pub stack: ValidStack }
+impl Placer {
+    /// model of ErrorHelper::fail: always an error
+    #[verifier::external_body]
+    fn fail<T, M>(&self, msg: M) -> (r: LayoutResult<T>) ensures r is Err { Err(LayoutError { }) }
+//@ fn layout21tetris/src/placer.rs :: impl Placer :: fn convert_track_layer
+//@   ret r
+//@   spec
+//|     requires forall|i: int| 0 <= i < old(self).stack.metals@.len() ==> layer_ok(#[trigger] old(self).stack.metals@[i]) && old(self).stack.metals@[i].period_data.signals@.len() <= 0x1_0000,
+//|         trackref.track <= 0x100_0000,
+//|         // panic-freedom minimum of track_index: the source track's centre falls on a covered offset of the target layer
+//|         trackref.layer != to_layer && trackref.layer < old(self).stack.metals@.len() && to_layer < old(self).stack.metals@.len() ==> ({
+//|             let c = center_spec(old(self).stack.metals@[trackref.layer as int], trackref.track); let t = old(self).stack.metals@[to_layer as int];
+//|             c <= 0x1000_0000_0000 && exists|k: int| #[trigger] first_sig_after(t.period_data.signals@, trem(c, t.pitch.0 as int), k) }),
+//|     ensures final(self).stack == old(self).stack,
+//|         // same layer: the reference itself
+//|         trackref.layer == to_layer ==> r is Ok && r->Ok_0 == *trackref,
+//|         // layers of different directions (or out of range) cannot be converted
+//|         trackref.layer != to_layer && (trackref.layer >= old(self).stack.metals@.len() || to_layer >= old(self).stack.metals@.len()
+//|             || old(self).stack.metals@[trackref.layer as int].spec.dir != old(self).stack.metals@[to_layer as int].spec.dir) ==> r is Err,
+//|         // otherwise: on the target layer, the track index of the source track's centre
+//|         trackref.layer != to_layer && r is Ok ==> r->Ok_0.layer == to_layer && ({
+//|             let c = center_spec(old(self).stack.metals@[trackref.layer as int], trackref.track); let t = old(self).stack.metals@[to_layer as int];
+//|             first_sig_after(t.period_data.signals@, trem(c, t.pitch.0 as int), r->Ok_0.track as int - tdiv(c, t.pitch.0 as int) * (t.period_data.signals@.len() as int)) }),
+//@ end
+}
 proof fn canary_stack(s: ValidStack) requires s.metals@.len() == 2 ensures false {}
 }
 fn main() {}
